@@ -30,6 +30,7 @@ type Profile struct {
 	AlsoProp     string // every violation of a run of this profile also belongs to this property (C17: results with a saturated read buffer)
 	NoCustomExp  bool   // only the built-in expiry policies (reads never shorten a deadline)
 	AccessBias   bool   // prefer expire-after-access among the built-in policies
+	TinyWriteBuf bool   // C16: write buffers of at most 4-8 events (offers are refused all the time)
 	MidBound     bool   // maximum between a third and the whole of the key space (eviction passes with several victims and arrivals)
 }
 
@@ -208,6 +209,9 @@ func GenCfg(r *simrt.Rng, p *Profile) Cfg {
 	c.Executor = ex[r.Intn(len(ex))]
 	c.Stats = p.Stats || r.Intn(2) == 0
 	c.WriteBufMax = []uint32{4, 4, 8, 16, 128, 1024}[r.Intn(6)]
+	if p.TinyWriteBuf && c.WriteBufMax > 8 {
+		c.WriteBufMax = 4 // the rng draw above is kept so that the other streams do not shift
+	}
 	c.StripedMax = []int{1, 1, 2, 4, 16}[r.Intn(5)]
 	if p.SmallReadBuf {
 		c.StripedMax = 1
